@@ -41,7 +41,7 @@ func VInv(q *Queue[int]) {
 
 func VHRingStep() {
 	q, pre := VGQueue()
-	containers.VLinStep(containers.VLin{C: q, Push: q.Enqueue, Pop: q.Dequeue, Peek: q.Peek, Cap: q.maxSize, Full: q.Full,
+	containers.VLinStep(containers.VLin{Name: "CircularBuffer", C: q, Push: q.Enqueue, Pop: q.Dequeue, Peek: q.Peek, Cap: q.maxSize, Full: q.Full,
 		Inv: func() { VInv(q) }}, pre)
 }
 
